@@ -743,10 +743,23 @@ func (p *Peer) retryDoc(ctx context.Context, peerIDString string, docID string) 
 		if err != nil {
 			return err
 		}
+		// The receiver resolves the collection by its collection id. Once the schema has been
+		// patched that is no longer the schema version id the block was written under.
+		collectionID := head.block.Delta.GetSchemaVersionID()
+		cols, err := clientTxn.GetCollections(ctx, client.CollectionFetchOptions{
+			VersionID:       immutable.Some(collectionID),
+			IncludeInactive: immutable.Some(true),
+		})
+		if err != nil {
+			return err
+		}
+		if len(cols) > 0 {
+			collectionID = cols[0].Version().CollectionID
+		}
 		updateEvent := event.Update{
 			DocID:        docID,
 			Cid:          head.cid,
-			CollectionID: head.block.Delta.GetSchemaVersionID(),
+			CollectionID: collectionID,
 			Block:        rawblock,
 			IsRetry:      true,
 		}
